@@ -128,6 +128,20 @@ def two_sessions(sess, suite, n, t, nsign):
     r = sess.call(req, EXACT, "sign-incorrect")
     sess.oracle(r.err == "IncorrectCommitment", "signer did not refuse nonces whose commitments differ from its entry (%s)" % r.raw, [req])
     sess.case("incorrect|" + req)
+    # --- own entry holds somebody else's commitments while the signer's real pair sits under another identifier
+    for j in others[:2] + extra[:1]:
+        cm = dict(cmA)
+        if j in cmA:
+            cm[i], cm[j] = cmA[j], cmA[i]
+        else:
+            cm[i], cm[j] = cmA[others[0]] if others else cmA[i], cmA[i]
+        if cm[i] == cmA[i]:
+            continue
+        req = "sign %s msg=%s comms=%s nonces=%s kp=%s" % (suite, msgA, comms_str_raw(cm), noncesA[i], kp)
+        r = sess.call(req, EXACT, "sign-swapped")
+        sess.oracle(r.err == "IncorrectCommitment", "signer signed although its own entry holds another participant's commitments (its real pair listed under another identifier) (%s)" % r.raw, [req])
+        sess.case("swapped|" + req)
+        sess.count("own-entry-swapped")
     # --- identity commitments
     for which in (0, 1):
         cm = dict(cmA)
@@ -153,9 +167,46 @@ def two_sessions(sess, suite, n, t, nsign):
     sess.count("suite:" + suite)
 
 
+def long_message(sess, suite, length):
+    """two messages that differ only in their last byte, beyond any fixed-size prefix a hash helper might keep"""
+    rng = sess.rng
+    fld = Fld(suite)
+    start = len(sess.records)
+    r, shares, pkp = dealer(sess, suite, 3, 2, make_ids(sess, suite, 3, "default"))
+    kps = keypkgs(sess, suite, shares)
+    signers = list(kps.keys())[:2]
+    pk = pkp_fields(pkp)
+    body = bytes(rng.randrange(256) for _ in range(64)) * (length // 64) + bytes(length % 64)
+    msgA, msgB = (body + b"\x0a").hex(), (body + b"\x0b").hex()
+    A = sign_round(sess, suite, kps, signers, msgA)
+    if not all(A[3][i].ok for i in signers):
+        return
+    commsA, noncesA, zA = A[0], A[1], A[2]
+    rp = lambda: [x[0] for x in sess.records[start:]]
+    cmA = {i: (nonces_fields(noncesA[i])["D"], nonces_fields(noncesA[i])["E"]) for i in signers}
+    preimage_check(sess, suite, msgA, cmA, pk["vk"], fld)
+    real = suite in REAL_SUITES
+    for i in signers:
+        v = sess.call("verify_share %s id=%s Y=%s z=%s msg=%s comms=%s vk=%s" % (suite, i, pk["vshares"][i], zA[i], msgA, commsA, pk["vk"]), CLASS, "verify_share-long")
+        sess.oracle(v.ok, "a share over a %d-byte message rejected in its own session (%s)" % (length + 1, v.raw), rp())
+        v = sess.call("verify_share %s id=%s Y=%s z=%s msg=%s comms=%s vk=%s" % (suite, i, pk["vshares"][i], zA[i], msgB, commsA, pk["vk"]), CLASS, "verify_share-long")
+        if real:
+            sess.oracle(not v.ok, "a share for a %d-byte message was accepted for a message differing in the last byte" % (length + 1), rp())
+    a = aggregate(sess, suite, msgB, commsA, zA, pkp, "first")
+    if real:
+        sess.oracle(not a.ok, "shares for a %d-byte message aggregated for a message differing in the last byte" % (length + 1), rp())
+    a = aggregate(sess, suite, msgA, commsA, zA, pkp, "first")
+    sess.oracle(a.ok, "aggregation over a long message failed (%s)" % a.raw, rp())
+    sess.case("long|%s|%d|%s" % (suite, length, commsA), sample={"suite": suite, "message_bytes": length + 1})
+    sess.count("long-message")
+
+
 def generate(sess):
     rng = sess.rng
     thorough = sess.tier != "quick"
+    for suite in REAL_SUITES + TOY_SUITES[:1]:
+        for length in ([65536 + rng.randrange(0, 300)] + ([1 << 17, 200, 4096 + rng.randrange(0, 200)] if thorough else [])):
+            long_message(sess, suite, length)
     for suite in TOY_SUITES:
         for nsign in ([2, 3, 4] if thorough else [2, 3]):
             for _ in range(3 if thorough else 1):
